@@ -7,13 +7,14 @@ import (
 
 	"github.com/RoaringBitmap/roaring"
 	segment "github.com/blugelabs/bluge_segment_api"
+	ice "github.com/blugelabs/ice/v2"
 	"pgregory.net/rapid"
 )
 
 // C15 — reading, persisting and merging never modify a segment or the caller's bitmaps.
 const c15Rule = "case = 2..3 segments (built / loaded / merged) + caller-owned bitmaps (array containers holding consecutive values, so that an in-place run-optimisation would change their bytes; " +
-	"foreign numbers for exclusions) and a history of <=10 actions: postings walks with a bitmap as exclusion, DocsMatchingTerms, stored / doc-value visits (also with the slice Fields() returned as the field list), WriteTo, merges (hooked and public) taking drawn segments as " +
-	"inputs with the bitmaps as drops, builds of unrelated batches; oracle = snapshot before (full observation + persisted bytes per segment; clone + serialised bytes per bitmap), everything re-observed after every action must be identical " +
+	"foreign numbers for exclusions) and a history of <=10 actions: postings walks with a bitmap as exclusion, DocsMatchingTerms, stored / doc-value visits (also with the slice Fields() returned as the field list), WriteTo, merges and persists whose destination fails at a drawn offset, merges (hooked and public) taking drawn segments as " +
+	"inputs with the bitmaps as drops, builds of unrelated batches; oracle = snapshot before (full observation + persisted bytes per segment; clone + serialised bytes per bitmap), everything re-observed after every action - including stored visits re-entered from inside a visitor - must be identical " +
 	"(set AND representation equality for bitmaps); non-trivial = the history contains a merge with a non-empty drop bitmap followed by a re-observation of its inputs; distinct = hash of case text + history"
 
 type segSnap struct {
@@ -62,6 +63,49 @@ type bmSnap struct {
 func snapBM(b *roaring.Bitmap) bmSnap {
 	bs, _ := b.ToBytes()
 	return bmSnap{b.Clone(), bs}
+}
+
+// nestedStoredCheck visits every document's stored fields and, from inside the
+// first callback, visits another document completely: both visits must deliver
+// what the snapshot holds.
+func nestedStoredCheck(seg segment.Segment, snap *XSeg) error {
+	n := snap.N
+	for d := 0; d < n; d++ {
+		other := (d + 1) % n
+		if n > 200 {
+			other = (d + 131) % n // another stored block
+		}
+		var outer, inner []XStored
+		var innerErr error
+		entered := false
+		err := safely("nested VisitStoredFields", func() error {
+			return seg.VisitStoredFields(uint64(d), func(f string, v []byte) bool {
+				val := string(v)
+				if !entered {
+					entered = true
+					innerErr = seg.VisitStoredFields(uint64(other), func(f2 string, v2 []byte) bool {
+						inner = append(inner, XStored{f2, string(v2)})
+						return true
+					})
+				}
+				outer = append(outer, XStored{f, val})
+				return true
+			})
+		})
+		if err != nil {
+			return err
+		}
+		if innerErr != nil {
+			return innerErr
+		}
+		if fmt.Sprint(outer) != fmt.Sprint(snap.Stored[d]) {
+			return fmt.Errorf("outer visit of document %d delivered %q, before the history it was %q", d, outer, snap.Stored[d])
+		}
+		if entered && fmt.Sprint(inner) != fmt.Sprint(snap.Stored[other]) {
+			return fmt.Errorf("visit of document %d from inside the visitor of document %d delivered %q, before the history it was %q", other, d, inner, snap.Stored[other])
+		}
+	}
+	return nil
 }
 
 func c15Prop(st *CaseStats) func(t *rapid.T) {
@@ -114,6 +158,7 @@ func c15Prop(st *CaseStats) func(t *rapid.T) {
 		hist := ""
 		mergedWithDrops := false
 		aliased := false
+		failedWrites := false
 		nt := false
 		verify := func() {
 			for i, c := range cases {
@@ -123,6 +168,9 @@ func c15Prop(st *CaseStats) func(t *rapid.T) {
 				}
 				if d := DiffObs(snaps[i].obs, now.obs, AllFacets); d != "" {
 					t.Fatalf("%s history%s:\n  SEG%d changed: %s", desc, hist, i, d)
+				}
+				if err := nestedStoredCheck(c.Seg, snaps[i].obs); err != nil {
+					t.Fatalf("%s history%s:\n  SEG%d, stored visit re-entered from inside a visitor: %v", desc, hist, i, err)
 				}
 				if snaps[i].footer != now.footer {
 					t.Fatalf("%s history%s:\n  SEG%d reports a different footer / size than before: %s -> %s", desc, hist, i, snaps[i].footer, now.footer)
@@ -153,7 +201,24 @@ func c15Prop(st *CaseStats) func(t *rapid.T) {
 			si := rapid.IntRange(0, nSeg-1).Draw(t, "seg")
 			c := cases[si]
 			var err error
-			switch rapid.IntRange(0, 9).Draw(t, "action") {
+			switch rapid.IntRange(0, 11).Draw(t, "action") {
+			case 10, 11: // a merge / persist whose destination fails at a drawn offset
+				k := rapid.SampledFrom([]int{0, 1, 5, 16, 40, 100, 300, 1000}).Draw(t, "failAt") + rapid.IntRange(0, 15).Draw(t, "failAtJitter")
+				if rapid.Bool().Draw(t, "failedMerge") {
+					hist += fmt.Sprintf(" failedMerge(seg%d,writer fails after %d bytes)", si, k)
+					dr := drops[si]
+					if rapid.Bool().Draw(t, "failedMergeNoDrops") {
+						dr = nil
+					}
+					_ = safely("failed merge", func() error {
+						_, e := ice.Merge([]segment.Segment{c.Seg}, []*roaring.Bitmap{dr}, rapid.SampledFrom([]int{0, 16}).Draw(t, "failedMergeBuf")).WriteTo(&failAfter{k: k}, nil)
+						return e
+					})
+				} else {
+					hist += fmt.Sprintf(" failedPersist(seg%d,writer fails after %d bytes)", si, k)
+					_, _ = c.Seg.WriteTo(&failAfter{k: k}, nil)
+				}
+				failedWrites = true
 			case 9: // the slice Fields() returned handed straight back to a read API (all fields' doc values)
 				hist += fmt.Sprintf(" dvOverFields(seg%d)", si)
 				aliased = true
@@ -278,6 +343,9 @@ func c15Prop(st *CaseStats) func(t *rapid.T) {
 		}
 		if aliased {
 			labels = append(labels, "Fields()-slice-passed-back")
+		}
+		if failedWrites {
+			labels = append(labels, "failed-merge-or-persist-in-history")
 		}
 		st.Record(desc+" history"+hist, nt, labels...)
 	}
